@@ -109,7 +109,35 @@ def reparse(sut, ctx, doc, tag):
     return elements
 
 
-def roundtrip(ctx, sut, fpm, elements, case, tag):
+def fixed_documents(ctx, sut, fpm):
+    """Documents on which the pinned tree IS a fixed point although they are full of numbered titles (the
+    classes are met in the same order by the first and by the second parse).  Judged without the F24
+    attribution: here any difference between J1 and J2 is new."""
+    for count in (12, 13, 34):
+        for where in ("definitions", "properties", "items_tuple"):
+            members = [{"type": "object", "title": "Entry", "required": [f"f{idx}"],
+                        "properties": {f"f{idx}": {"type": "integer"}}} for idx in range(count)]
+            if where == "definitions":
+                schema = {"type": "object", "title": "Root", "properties": {"a": {"type": "string"}},
+                          "definitions": {f"e{idx:02d}": member for idx, member in enumerate(members)}}
+            elif where == "properties":
+                schema = {"type": "object", "title": "Root",
+                          "properties": {f"m{idx:02d}": member for idx, member in enumerate(members)}}
+            else:
+                schema = {"type": "array", "items": members[:20]}
+            if (count + len(where)) % ctx.nshards != ctx.shard:
+                continue
+            try:
+                elements = sut.parse_file(copy.deepcopy(schema), ctx.tmpdir(), f"c06f_{ctx.stream}_{count}_{where}.json")
+            except Exception as exc:  # pylint: disable=broad-except
+                ctx.witness("first_parse_failed", {"schema": schema}, f"{type(exc).__name__}: {exc!r}"[:300])
+                continue
+            ctx.count("fixed_documents")
+            roundtrip(ctx, sut, fpm, elements, {"schema": schema, "fixed_document": True}, f"fixed_{count}_{where}",
+                      attribute_f24=False)
+
+
+def roundtrip(ctx, sut, fpm, elements, case, tag, attribute_f24=True):
     ctx.evaluation()
     try:
         j1 = json.loads(json.dumps(sut.serialize_json(*elements)))
@@ -137,7 +165,7 @@ def roundtrip(ctx, sut, fpm, elements, case, tag):
         return
     if not refmodel.json_eq(j1, j2):
         finding = None
-        if numbered_titles(j1) and refmodel.json_eq(normalise_json(j1), normalise_json(j2)) and \
+        if attribute_f24 and numbered_titles(j1) and refmodel.json_eq(normalise_json(j1), normalise_json(j2)) and \
                 sorted(NUMBERED.sub("", t) for t in class_titles(j1)) == \
                 sorted(NUMBERED.sub("", t) for t in class_titles(j2)):
             # F24 as observed on the pinned tree: the second parse strips the _N suffix (Foo_1 formats to
@@ -209,6 +237,7 @@ def run_shard(ctx):
 
     import random as _random  # pylint: disable=import-outside-toplevel
 
+    fixed_documents(ctx, sut, fpm)
     pending_sibling = None
     seeds = [ctx.gen_rng.getrandbits(48) for _ in range(ctx.params["schemas"])]
     for idx, case_seed in ctx.ordered(seeds):
@@ -291,5 +320,5 @@ def replay(case, ctx):
         elements = sut.st_parser.parse(sut.materialize_file(path))
     else:
         elements = sut.parse_file(copy.deepcopy(case["schema"]), ctx.tmpdir(), f"c06r_{tag}.json")
-    base = {k: v for k, v in case.items() if k in ("files", "entry", "schema")}
-    roundtrip(ctx, sut, fpm, elements, base, tag)
+    base = {k: v for k, v in case.items() if k in ("files", "entry", "schema", "fixed_document")}
+    roundtrip(ctx, sut, fpm, elements, base, tag, attribute_f24=not case.get("fixed_document"))
